@@ -387,7 +387,10 @@ pub fn explore(layout: &Layout, alphabet: &[KeyCode], opts: &Opts) -> LayoutResu
                           let ok_modremap = e_after.iter().any(|&i| { let m2 = &ms[i as usize]; ends_in_mod(m2) && m2.to.contains(d) });
                           *ante.entry("C04_other_modifier_down").or_insert(0) += 1;
                           if !(ok_phys || ok_modremap) {
-                            let sig = if is_mod(x) { Some(SIG_MODFINAL) } else { None };
+                            // recorded shape (§7.1): the final output key is a modifier AND the stale modifier was pressed by a
+                            // key-producing mapping that is still in effect; a passed-through trigger modifier of the firing mapping left down is not it
+                            let from_held_chord = e_before.iter().any(|&i| key_producing(&ms[i as usize]) && ms[i as usize].to.contains(d));
+                            let sig = if is_mod(x) && from_held_chord { Some(SIG_MODFINAL) } else { None };
                             rec.report(P_C04, "ii-stale-modifier", sig, &full_path, &|| format!("{} is down when final output key {} is pressed, is neither physically held outside the trigger nor the output of a held modifier-remapping; step output {}", d, x, events_str(&r.events)));
                           }
                         }
